@@ -58,9 +58,10 @@ func OpenPackage(L *LState) int {
 	L.SetField(packagemod, "loaders", loaders)
 	L.SetField(L.Get(RegistryIndex), "_LOADERS", loaders)
 
-	loaded := L.NewTable()
+	// package.loaded is the table RegisterModule keeps its modules in: what
+	// has been registered so far (the package module itself) stays loaded
+	loaded := L.FindTable(L.Get(RegistryIndex).(*LTable), "_LOADED", 1)
 	L.SetField(packagemod, "loaded", loaded)
-	L.SetField(L.Get(RegistryIndex), "_LOADED", loaded)
 
 	L.SetField(packagemod, "path", LString(loGetPath(LuaPath, LuaPathDefault)))
 	L.SetField(packagemod, "cpath", emptyLString)
